@@ -54,6 +54,9 @@ CLAIMED = {
  "C16": ("proptest: generated file sets (multi-byte, CRLF, long lines, EOF/BOF matches) x query x context x JSON style through the real CLI; oracle = recomputation of every printed field from the file bytes (O-pos, whole-line slicing)",
          "Randomised exploration through the real binary: 1.5x10^3 (quick) to 3x10^4 (thorough) invocations producing 10^4-10^6 JSON records and plain-report lines, each recomputed from the bytes on disk; JSON must parse as one array / one object per line for 1-29 files.",
          "Trusted: serde_json as JSON parser; the files written by the harness; JavaScript sources only (the printers are language independent).", "DESIGN.md §5 C16"),
+ "C17": ("proptest + fault injection + schedule perturbation: generated directory trees with fault files, thread counts and producer-delay seeds (cfg(ast_grep_verif) hook) through the real CLI; oracle = union of single-file single-thread runs (differential) + file accounting invariant",
+         "Randomised stress exploration: 120 (quick) to 1.5x10^3 (thorough) trees x 6-12 runs over -j 1..16 with steered producer completion orders; every run must be well-formed, equal to the reference multiset without loss or duplicate, exit as the reference says and account for every eligible file exactly once.",
+         "Trusted: single-file -j1 runs as reference; the harness perturbs but does not own the OS scheduler (no enumeration of interleavings); unreadable files need setpriv.", "DESIGN.md §5 C17"),
  "C18": ("proptest: generated projects (overlapping fixable rules, html hosts, repeated invocations) through the real CLI; oracle O-update = the edits announced by the same command under --json ordered as visited, overlaps dropped, spliced with O-splice (model-based differential)",
          "Randomised exploration through the real binary: hundreds (quick) to thousands (thorough) of `-U` invocations (run and scan, 1-3 repetitions each); every file must equal the spliced model byte for byte, untouched files must be unchanged and `Applied N changes` must equal the number of accepted edits.",
          "Trusted: the JSON output as the announcement (C16 checks it against the bytes); the visiting order model (node start, outer first, rule id).", "DESIGN.md §5 C18"),
